@@ -599,7 +599,8 @@ impl Locale {
                 }
                 continue;
             };
-            let key = Key::new(&base_key).unwrap_at("merge_plurals_1");
+            // `_one` / `_other` alone give an empty base key: an invalid key, not an internal error.
+            let key = Key::try_new(&base_key)?;
             key_path.push_key(key);
             if !cfg!(feature = "plurals") && !SKIP_ICU_CFG.get() {
                 return Err(Error::DisabledPlurals {
